@@ -16,7 +16,7 @@ DONE = {
          "trusted: the shape functions' transcription of the documentation", "4/C14"),
  "C18": ("exploration", "totality monitor: catch_unwind + error-category check + serialize/deserialize fixed point on every accepted value",
          "Arbitrary values and near misses (1-3 structural mutations of a valid encoding) are offered to from_value::<T> for every type of the family: a panic inside the library is a violation, an Err must be Data-category, and an accepted x must satisfy from_value(to_value(x)) == x (accepted alternative encodings are counted as normalised).",
-         "trusted: panic classification by source location", "4/C18"),
+         "trusted: panic classification by source location, or by the innermost lexpr/serde_lexpr/harness stack frame for panics raised inside core/std", "4/C18"),
  "C13": ("exploration", "parse/print/parse/print fixed-point monitor over accepted texts with the mirror printer options",
          "Arbitrary generated text (token soup, lenient symbol constituents, alternative spellings, mutated printer output) is offered to the parser under option sets drawn from all 1536; every accepted text is printed with the corresponding printer options, re-read with the same parser (must equal the folded value, floats by the C05 rule) and, when all floats are in the reader's exact domain, printed again (must be the same text). A lenient-token corpus is additionally crossed with all 1536 option sets. Both feature builds; at least 10% of inputs must be accepted.",
          "trusted: mirror(Q) as the meaning of 'corresponding printer options'", "4/C13"),
@@ -63,6 +63,32 @@ DONE = {
          "Every value is built from a known Rust payload through every From/constructor path; a 40-line payload model decides each accessor and each ==. Runs the real code on boundary tables for all eight integer widths, f32/f64 incl. non-finite, strings, bytes, compound values. Exploration is the right level: the input space is unbounded but the defect classes (range tests, sign handling, cross-kind comparisons) live at enumerable boundaries.",
          "trusted: Rust `as` casts as the definition of nearest double; the harness payload model", "4/C20"),
 }
+# workloads added after the seeded-change rounds and the coverage measurement (DESIGN.md sections 5.1 and 8)
+MORE = {
+ "C01": " Added: exhaustive enumeration of all 147k non-ASCII alphabetic scalars in identifier positions (both tiers); one 65 KiB-1.5 MiB atom followed by more atoms; sinks accepting 1 and 3 bytes per call.",
+ "C02": " Added: byte vectors, strings, names, lists and vectors of 2^k-1..2^k+1 elements; 130-420 siblings dominated by one kind of empty compound/atom.",
+ "C03": " Added: literals whose written + implied exponent lands within 3 of the i32 limits; 16 un-nested units repeated 2.5x10^5 / 10^6 times (comment lines, blanks, small datums) in child processes; panics raised inside core/std are attributed to the library by backtrace.",
+ "C04": " Added: the _custom text routes (all routes must also print the same text); borrowed targets; a 65 KiB-1.2 MiB string followed by more strings; ALL 2^32 f32 bit patterns through to_value/from_value in thorough (2^24 slice in quick); collections of 2^k-1..2^k+1 elements.",
+ "C05": " Added: the decimal point at every position of every boundary integer's digits with round-down/half/up tails and exponents.",
+ "C06": " Added: every named entry point (lexpr::from_*, *_elisp, datum::from_*, Parser::from_* with current and deprecated method names) against its _custom sibling with and without injected faults; is_io/is_syntax/is_eof vs classify(); serde_lexpr stream entry points under faults (category, source chain, io::Error conversion); lead-ins such as BOM/NUL; tokens of 2^k-1..2^k+1 bytes.",
+ "C07": " Added: one Printer reused after a transient sink error and for several values (also as io::Write); sizes around powers of two; serde_lexpr::to_writer sink errors must come back as Io-category errors carrying the sink's error.",
+ "C08": " Added: every option set assembled by random routes through the builder API (any constructor, setters in random order, keyword syntaxes as a set with repetitions or one by one): query methods and probe readings must not depend on the route; Options::default()/elisp() against the documented sets; value and datum API compared per (input, option set).",
+ "C09": " Added: float spellings 1E5 / 1e+5 / 2.5E+3; 20 caller variables with expansion-prone names (tail, head, list, vec, value, ...) in every unquote position of 10 compound shapes.",
+ "C10": " Added: lock-step continuation after errors on two parsers incl. the two nesting budgets; near-limit nesting.",
+ "C11": " Added: spans re-read with expect_end() calls interleaved; spans of Datum::clone() and Datum::from(Ref) must equal the original's; line numbers and byte columns beyond 255 / 65535.",
+ "C12": " Added: long flat streams (2x10^5 / 10^6 items or trivia lines) read item by item in child processes of the mon and dev builds with the exact item count as oracle; adaptors polled repeatedly after an error; comment bodies with NUL, FF, ESC, BOM.",
+ "C13": " Added: second printer choice mirror_alt(Q); every lenient token also under each quotation shorthand and as a dotted tail; near-limit nesting.",
+ "C14": " Added: look-alike wrong kinds (the items as a byte vector or string, empty byte vector/string) and the last item as dotted tail; KvMap driving serialize_key/serialize_value separately.",
+ "C15": " Added: lists built through Cons::new + the four mutators; indices 2^k+j (aliases under truncation); names that look like printed forms of other keys; the empty list.",
+ "C16": " Added: operations over nil/null/string/pair/quoted/vector elements; eq on lists differing everywhere / at the end; full dotted-pair notation (1 . (1 . ...)).",
+ "C17": " Added: the same parser asked again after each error (str, slice, stream; value and datum); 40 failing prefixes followed by multi-byte characters; tokens whose multi-byte character straddles 128/256/.../8192 bytes; Miri workload 810 inputs incl. resumed parsers and owned datum copies.",
+ "C18": " Added: deserialize_any-driven targets (serde_json::Value, IgnoredAny, untagged enum) for the totality clause; strings of 60-1030 bytes with multi-byte characters at buffer-size offsets; coherence of the data error object (Display, location, source, io kind).",
+ "C19": " Added: signatures carry the set of misreporting entry points; read failures of 8 kinds must come back as Io or as the already-determined outcome; error locations beyond line/column 65535.",
+ "C20": " Added: comparison operands 1 and 2 ulp away from the value's as_f64 and the neighbours of its f32 rounding.",
+}
+for k, extra in MORE.items():
+    lvl, tech, text, note, ref = DONE[k]
+    DONE[k] = (lvl, tech, text + extra, note, ref)
 props = [json.loads(l) for l in open('/verif/properties.jsonl')]
 hooks = subprocess.run(["git","-C","/repo","log","--format=%H","--grep=^verif hooks"],capture_output=True,text=True).stdout.split()
 checks=[]; na=[]
